@@ -41,6 +41,10 @@ NOT_UNDER_CONTRACT = ['src.analysis.type_dependency_analysis.is_combination_feas
                       'src.ir.visitors.DefaultVisitorUpdate', 'the 23 update_children overrides of src/ir/ast.py']
 
 
+# the functions whose slice contracts carry the site obligations of the allowed writes / mutator calls
+SITE_FUNCTIONS = {'src.transformations.type_erasure.TypeErasure.visit_func_decl'}
+
+
 def custom_proof(tier):
     from pyvc import frontend, statecheck
     fe = frontend.Frontend(REPO)
@@ -50,8 +54,10 @@ def custom_proof(tier):
             ('src.transformations.type_erasure', {'can_infer_type_args'}, ('type_graph', 'c_type_graph'), {'omit_type'}),
             ('src.transformations.base', set(), ('timeouted',), set()),
             ('src.analysis.type_dependency_analysis', {'type_parameters'}, ('type_graph',), set())):
-        out += statecheck.store_census(fe, mod, allowed, allowed_roots=roots)
-        out += statecheck.mutator_call_census(fe, mod, calls, mut)
+        # (the cached callee link of the analysis is a trusted write without site obligation: allowed anywhere in its module)
+        sf = SITE_FUNCTIONS if mod == 'src.transformations.type_erasure' else None
+        out += statecheck.store_census(fe, mod, allowed, allowed_roots=roots, site_functions=sf)
+        out += statecheck.mutator_call_census(fe, mod, calls, mut, site_functions=sf)
     return out
 
 
